@@ -109,6 +109,23 @@ def gen_cases(rng, tier):
         else:
             t = list(IDENT6)
         cases.append(("c18", [8] + t + [rng.randrange(2), rng.randint(-3, 20), rng.randint(-3, 15), rng.randint(1, 25), rng.randint(1, 20), int(rng.random() < 0.3)]))
+    # fn 9: strokes (hairlines, thin anti-aliased, thick) with solid / gradient / pattern paints under exact similarity
+    # transforms: mirrors, quarter turns, point reflection, optionally x2, whole-pixel translations
+    for i in range(240 if tier == "quick" else 3000):
+        sc = rng.choice([1.0, 1.0, 2.0])
+        lin = rng.choice([(1, 0, 0, 1), (-1, 0, 0, 1), (1, 0, 0, -1), (-1, 0, 0, -1), (0, 1, -1, 0), (0, -1, 1, 0), (0, 1, 1, 0), (0, -1, -1, 0)])
+        sx, ky, kx, sy = [v * sc for v in lin]     # the argument order of the suite: sx ky kx sy tx ty
+        pts = [(float(rng.randint(3, 24)), float(rng.randint(3, 24))) for _ in range(rng.randint(2, 4))]
+        if sc == 2.0:
+            pts = [(x / 2, y / 2) for x, y in pts]
+        # translate so that the mapped points fall inside the 64 x 64 pixmap
+        mx = [sx * x + kx * y for x, y in pts]; my = [ky * x + sy * y for x, y in pts]
+        tx, ty = float(8 - int(min(mx))), float(8 - int(min(my)))
+        width = rng.choice([0.0, 0.0, 0.4, 0.8, 1.0, 1.5, 1.9, 3.0, 6.0]) / sc
+        aa = 1 if (rng.random() < 0.7 or width * sc < 1.0) else 0
+        shader = rng.randrange(3) + 3 * rng.randrange(3)
+        t = [f2b(sx), f2b(kx), f2b(ky), f2b(sy), f2b(tx), f2b(ty)]
+        cases.append(("c18", [9] + t + [f2b(width), aa, shader, f2b(sc)] + [f2b(v) for p in pts for v in p]))
     return cases
 
 
@@ -192,6 +209,10 @@ def oracle(suite, args, out):
         if o and o[0] > 0:
             return "drawing with the transform differs from drawing the pre-transformed path in %d bytes" % o[0]
         return None
+    if k == 9:
+        if len(o) >= 3 and o[0] > 0:
+            return "stroke_path with the transform differs from stroking the pre-transformed path with the shader moved along in %d bytes (worst %d levels)" % (o[0], o[2])
+        return None
     if k == 8:
         if o and o[0] > 0:
             return "%s with a transform differs from the same geometry drawn as a path / with the offset folded into the transform in %d bytes (the shader does not follow the transform)" % (
@@ -212,7 +233,7 @@ def relation(suite, args, mo, io):
 def nontrivial_tag(suite, args, out):
     if args[0] == 1 and out not in ("-1",):
         return "invert:some"
-    if args[0] in (6, 7, 8):
+    if args[0] in (6, 7, 8, 9):
         return "draw%d" % args[0]
     if args[0] in (2, 3):
         return "fn%d" % args[0]
